@@ -37,5 +37,5 @@ TEXT = dict(
           "and vs a docstring Spec at random theta to 1e-7 relative, returned object vs chosen optimiser results.",
     note="Proved: the decision logic and algebra of the model. Compared, not proved: cdf values, numpy rounding, float "
          "arithmetic, the optimiser (trusted), the last clause (real fits only). Side-condition violations on the "
-         "unchanged tree are reported as findings F6a-F6d with explicit input predicates.",
+         "unchanged tree are reported as findings F6b/F6c with explicit input predicates (F6a and F6d, found here, are repaired in /repo: 55c25d1).",
 )
